@@ -841,18 +841,20 @@ def run(tier):
         return th
 
     ths = [bg("case", lambda: gen("case", menu, 1, extra_file, workers=2 if quick else 4, timeout=1500)),
-           bg("cb21", lambda: gen("cb21", menu, 3 if quick else 4, workers=2 if quick else 4, timeout=1500)),
+           bg("cb21", lambda: gen("cb21", menu, 3, workers=2 if quick else 4, timeout=1500)),
            bg("cb1", lambda: gen("cb1", menu, 3 if quick else 4, workers=1 if quick else 2)),
            bg("files", lambda: gen("files", menu, 3 if quick else 5, workers=1 if quick else 2)),
            bg("mc", lambda: tlc.mc("C03", "RotMC", "RotMC.cfg", workers=2 if quick else 4, heap="6g", timeout=900,
                                    require_actions=("LCompute", "LWriteFile", "LReadByPath", "LBuild21", "LExport21", "LParse21", "LSetUserData",
                                                     "LSetConstraints", "LBuild1", "LExport1", "LParse1", "LSetImageLength"))),
            bg("asbuilt", lambda: tlc.run("C03", "RotMC", "RotMC_asbuilt.cfg", workers=1, heap="4g", timeout=900))]
+    if not quick:  # longer histories over the small menus (the full menus are exhausted to depth 3)
+        ths.append(bg("cb21-deep", lambda: gen("cb21", "small", 5, workers=2, timeout=1500)))
     for th in ths:
         th.join()
     if errs:
         raise errs[0]
-    for name in ("case", "cb21", "cb1", "files", "mc"):
+    for name in ("case", "cb21", "cb1", "files", "mc") + (() if quick else ("cb21-deep",)):
         v.add_mc(res[name])
     ab = res["asbuilt"]
     v.extra["ispec_prediction"] = ("RotMC_asbuilt (SigCache = TRUE, the signature is only made when there is none): TLC " +
@@ -862,6 +864,8 @@ def run(tier):
 
     cases = [(j["hist"][0]["c"], j["hist"][0]["term"]) for j in res["case"].json_prints() if j["mode"] == "case"]
     behs = {m: [j for j in res[m].json_prints() if j["mode"] == m] for m in ("cb21", "cb1", "files")}
+    if not quick:
+        behs["cb21"] += [j for j in res["cb21-deep"].json_prints() if j["mode"] == "cb21"]
     if len(cases) < 2000 or min(len(b) for b in behs.values()) < 50:
         raise Machinery(f"generator emitted too little: {len(cases)} cases, " + str({m: len(b) for m, b in behs.items()}))
     n_anchor = anchor_check(cases)
@@ -891,14 +895,34 @@ def run(tier):
 
     # ---- TV: TLC decides (the canary rides in the same batch)
     c0, t0 = next((c, t) for c, t in cases if c["rot"] == "cert_block_21" and len(c["keys"]) == 3 and c["path"] == "rkht")
-    batch = canary_traces(c0, t0) + traces
-    rej, tv = tlc.tv("C03", "RotTrace", batch, heap="10g", timeout=3000)
+    lean = [{"id": t["id"], "ev": [{k: x for k, x in e.items() if k != "hex"} for e in t["ev"]]} for t in traces]
+    chunks = [lean[k:k + 5000] for k in range(0, len(lean), 5000)]
+    chunks[0] = canary_traces(c0, t0) + chunks[0]
+    rej, tv_states, tv_errs = {}, [0], []
+    sem = threading.Semaphore(3)
+
+    def tv_chunk(part):
+        with sem:
+            try:
+                rj, res_tv = tlc.tv("C03", "RotTrace", part, heap="8g", timeout=3000)
+                rej.update(rj)
+                tv_states[0] += res_tv.distinct
+            except BaseException as x:  # noqa: BLE001
+                tv_errs.append(x)
+
+    tvs = [threading.Thread(target=tv_chunk, args=(part,)) for part in chunks]
+    for th in tvs:
+        th.start()
+    for th in tvs:
+        th.join()
+    if tv_errs:
+        raise tv_errs[0]
     can = {k: x for k, x in rej.items() if str(k).startswith("canary")}
     if set(can) != {"canary-flip", "canary-order", "canary-refused"} or can["canary-flip"][3] != "value" or can["canary-order"][3] != "term":
         raise Machinery(f"canary failed: {can}")
     v.extra["canary"] = "good observation accepted; one flipped bit of the value, the value of another key order, a refusal: rejected"
     v.traces(len(traces))
-    v.extra["tv_states"] = tv.distinct
+    v.extra["tv_states"] = tv_states[0]
     for tid, (matched, length, evname, why) in rej.items():
         if str(tid).startswith("canary"):
             continue
@@ -922,10 +946,10 @@ def run(tier):
         f"{'all' if not quick else 'four'} orders x used index x every tool path) + encoding sweep (every encoding each path takes, uniform and mixed) + "
         f"{len(extra)} sampled; histories: {len(behs['cb21'])} cert-block v2.1, {len(behs['cb1'])} v1, {len(behs['files'])} key-file rewrite; "
         "a trace is non-trivial if the real code returned a value in it (distinct by the abstract arguments)")
-    v.cov["exhaustive"] = True
+    v.cov["exhaustive"] = False
     v.cov["key_pool"] = f"{nkeys} keys in keys/rot"
     v.cov["checker_cmd"] = "TLC RotGen (lemmas + emission) ; TLC RotMC ; TLC RotTrace (decides every observation)"
-    v.cov["trusted_base"] = "hashlib SHA-2, `cryptography` key loading / ECDSA verification called directly, own DER length reader"
+    v.cov["trusted_base"] = ["hashlib SHA-2", "`cryptography`: key / certificate loading and ECDSA verification, called directly (never through spsdk.crypto)", "own DER length reader and v1 block walker (struct)", "TLC + CommunityModules (Json, IOUtils)"]
     v.assumptions += [
         "RSA moduli have their full length and e = 65537 (3 bytes): the pool holds no artificial short moduli",
         "SRK tables (HAB, AHAB) carry a documented CA flag per record; it is taken from the supplied certificate and is part of the expected value - "
